@@ -808,10 +808,8 @@ func TestVerifC09Seq(t *testing.T) {
 		}
 		for i := 0; i < n; i++ {
 			op := c.ops[i]
-			if op.Kind == "Reopen" && pbuf && !op.toPB {
-				c.res.Unsupported++ // protobuf -> json is not a supported transition
-				continue
-			}
+			// (protobuf -> json, a downgrade, is explored too: every reader decides per value, so a store may hold
+			// both encodings)
 			// shard by the first two operations
 			if len(seq) == 1 || (depth == 1 && len(seq) == 0) {
 				group++
@@ -1098,10 +1096,7 @@ func TestVerifC09Crash(t *testing.T) {
 		}
 		for i := 0; i < n; i++ {
 			op := c.ops[i]
-			if op.Kind == "Reopen" && pbuf && !op.toPB {
-				c.res.Unsupported++
-				continue
-			}
+
 			np := pbuf
 			if op.Kind == "Reopen" {
 				np = op.toPB
